@@ -132,6 +132,28 @@ fn test(c: &Case, st: &mut Stats) -> TestResult {
             crate::refimpl::crc32(data)
         );
     }
+    // the same builder serialised the other ways (used buffer, clone, owned after / before the
+    // FINGERPRINT was added): what each of them appends must be the CRC of what it wrote before it
+    if c.seed % 2 == 0 {
+        if let Ok(paths) = guard(|| spec.lib_build_paths()).map_err(|p| Fail::new("c09-panic", format!("builder panicked on another serialisation path: {}", p)))? {
+            for (how, bytes) in paths {
+                ensure!(bytes.len() >= 28 && bytes[bytes.len() - 8..bytes.len() - 4] == [0x80, 0x28, 0x00, 0x04], "c09-value", "{}: the output does not end in a 4-byte FINGERPRINT", how);
+                let s = bytes.len() - 8;
+                let want = refstun::fingerprint_value(&bytes, s);
+                let got = u32::from_be_bytes([bytes[s + 4], bytes[s + 5], bytes[s + 6], bytes[s + 7]]);
+                ensure!(
+                    got == want,
+                    "c09-value",
+                    "{}: FINGERPRINT value {:08x}, the CRC relation over the bytes before it gives {:08x}; message {}",
+                    how,
+                    got,
+                    want,
+                    hex_short(&bytes)
+                );
+            }
+            st.class("FINGERPRINT checked on 7 further serialisation paths");
+        }
+    }
     if Message::from_bytes(&built).is_err() {
         st.class("original refused (C02/C03's business)");
         return Ok(());
